@@ -26,6 +26,10 @@ func genC17(seed uint64, tier string) *Plan {
 	hl := r.rng(2, 6)
 	p.Knobs["history_len"] = float64(hl)
 	p.Knobs["history_gossip"] = float64(r.rng(1, hl))
+	if r.chance(0.02) {
+		// a message cache without any window: HistoryGossip <= HistoryLength still holds
+		p.Knobs["history_len"], p.Knobs["history_gossip"] = 0, 0
+	}
 	p.Knobs["gossip_retx"] = float64(r.rng(1, 3))
 	p.Knobs["max_ihave_len"] = float64(r.rng(2, 20))
 	p.Knobs["max_ihave_msgs"] = float64(r.rng(1, 4))
@@ -94,8 +98,20 @@ func genC17(seed uint64, tier string) *Plan {
 			add("node-pub", 0, int64([]int{16, 70, 600}[r.intn(3)]))
 		case x < 40:
 			add("iwantk", i, int64(r.intn(8)), int64(r.rng(1, 3))) // ask for the k-th known message (n ids incl. unknown)
-		case x < 50:
+		case x < 48:
 			add("ihavem", i, int64(r.rng(1, 6)), int64(r.intn(4))) // advertise n fresh messages; follow-up behaviour
+		case x < 50:
+			// the advertiser uses up its budget, drops its connection, comes back and advertises
+			// again, all inside one heartbeat interval: the budget is per interval, not per connection
+			add("ihavem", i, int64(r.rng(3, 8)), 0)
+			add("disconnect", i)
+			add("reconnect", i, int64(r.intn(2)))
+			add("identify", i)
+			add("adv", 5)
+			add("open", i)
+			add("sub", i, 0)
+			add("adv", 2)
+			add("ihavem", i, int64(r.rng(3, 8)), 0)
 		case x < 56:
 			add("ihaveseen", i, int64(r.rng(1, 4)))
 		case x < 66:
@@ -121,6 +137,13 @@ func genC17(seed uint64, tier string) *Plan {
 func runC17(s *sim) {
 	w := newNodeWorld(s)
 	if err := w.startNode(); err != nil {
+		if w.plan.ki("history_len", 5) < 1 {
+			// the library refuses a message cache without a window: nothing to check (counted)
+			s.probe("params_rejected_by_validation")
+			s.class = "rejected"
+			s.teardown()
+			return
+		}
 		s.violate("SIM", "setup", "SIM/setup", "node creation failed: %v", err)
 		return
 	}
@@ -367,7 +390,7 @@ func runC17(s *sim) {
 		}
 		return ids
 	}
-	checkIWantReply := func(fp *fakePeer, ids []string) {
+	checkIWantReply := func(fp *fakePeer, ids []string) (requested []string) {
 		s.settle()
 		post := w.snapshot()
 		i, _ := w.fakeIndex(fp.id)
@@ -377,6 +400,7 @@ func runC17(s *sim) {
 				req = append(req, iw.GetMessageIDs()...)
 			}
 		}
+		requested = req
 		reach := pre.inAlive[i] && post.inAlive[i] && !pre.stalled[i]
 		if !eligibleAsker(pre, fp.id) {
 			if len(req) > 0 {
@@ -442,6 +466,7 @@ func runC17(s *sim) {
 			promises = append(promises, &promise{to: fp.id, ids: req, expire: s.now() + followup})
 			s.probe("iwant_sent_by_node")
 		}
+		return
 	}
 	w.extraOps["ihavem"] = func(it Item) {
 		fp := w.fake(int(it.a(0)))
@@ -450,7 +475,23 @@ func runC17(s *sim) {
 		}
 		ids := mkFresh(fp, int(it.a(1)))
 		fp.send(rpcIHave("t0", ids...))
-		checkIWantReply(fp, ids)
+		req := checkIWantReply(fp, ids)
+		if it.a(2) == 1 && len(req) > 0 {
+			// an honest advertiser: everything the node asked for is delivered at once
+			s.probe("all_requested_messages_delivered")
+			for _, id := range req {
+				m := fresh[id]
+				if m == nil || !fp.outAlive() {
+					continue
+				}
+				w.sent[id] = m
+				w.noteSentBy(fp, m)
+				lastPub, lastPubBy = m, fp
+				sendCount[id]++
+				fp.send(rpcPub(m))
+				s.settle()
+			}
+		}
 	}
 	w.extraOps["ihaveseen"] = func(it Item) {
 		fp := w.fake(int(it.a(0)))
@@ -487,6 +528,12 @@ func runC17(s *sim) {
 	w.afterItem = append(w.afterItem, func(it Item) {
 		if pre == nil || s.stopped {
 			return
+		}
+		if it.Op == "disconnect" {
+			// what a peer declared unwanted belongs to its session: gone with the connection
+			if fp := w.fake(int(it.a(0))); fp != nil {
+				delete(unwanted, fp.id)
+			}
 		}
 		post := w.snapshot()
 		noteLocalPublishes(pre.ticks)
